@@ -39,7 +39,9 @@ def _spectral_axis(draw, dispersed=False):
     # (now and then several hundred wavelengths: beyond any block size an implementation may use)
     n = draw(st.sampled_from([257, 300, 513])) if draw(st.integers(0, 3 if dispersed else 19)) == 0 else draw(st.integers(3, 8))
     lo = draw(st.sampled_from([600.0, 450.0, 500.0]))
-    step = draw(st.sampled_from([10.0, 25.0, 7.5]))
+    # (long axes are dense: the whole axis stays within a few hundred nm of the dispersion centre, where the dispersed IRF stays
+    # inside the time window - at 7800 nm its centre would sit at t = 56 and the matrix column vanish)
+    step = draw(st.sampled_from([10.0, 25.0, 7.5])) if n < 100 else draw(st.sampled_from([0.5, 0.25, 1.0]))
     return [lo + step * i for i in range(n)]
 
 
